@@ -1,4 +1,4 @@
-CONSTANTS Family = "mut" MaxBody = 2 Alpha = {97} NExt1 = 8 NExt2 = 1 MaxStr = 0 Alpha2 = {48, 49, 97, 120, 103, 59, 61, 34, 92, 32, 13, 10}
+CONSTANTS Family = "mut" MaxBody = 2 Alpha = {97} NExt1 = 9 NExt2 = 1 MaxStr = 0 Alpha2 = {48, 49, 97, 120, 103, 59, 61, 34, 92, 32, 13, 10}
 INIT Init
 NEXT Next
 INVARIANT Laws
